@@ -331,6 +331,12 @@ pub enum HStep {
     /// create table `t` with the column list of the `like`-th live table: a
     /// creation that may add no new string to the pool at all
     CreateLike { t: u8, like: u8 },
+    /// row traffic on an auxiliary table (`_Traffic`: k int16 key, s and t
+    /// free strings) whose texts are the very strings the catalog holds for
+    /// the history's tables (their names, their column names, "Y", "N",
+    /// category names): 0 insert `n` rows, 1 update every row, 2 update one
+    /// row, 3 delete every row, 4 delete one row
+    Traffic { kind: u8, sel: u8, n: u8 },
 }
 
 #[derive(Clone, Debug, Serialize, Deserialize, Hash, PartialEq, Eq)]
@@ -373,6 +379,13 @@ pub fn check_hist(case: &HistCase, st: &mut Stats) -> Check {
     let mut trace = String::new();
     let mut dropped = false;
     let mut created_after_drop = false;
+    let mut traffic_table = false;
+    let mut next_key = 1i32;
+    let text = |sel: u8| -> msi::Value {
+        const EXTRA: [&str; 6] = ["Y", "N", "Identifier", "Text", "_Traffic", "s"];
+        let i = sel as usize % (HC.len() + HT.len() + EXTRA.len());
+        msi::Value::from(if i < HC.len() { HC[i] } else if i < HC.len() + HT.len() { HT[i - HC.len()] } else { EXTRA[i - HC.len() - HT.len()] })
+    };
     for step in &case.steps {
         // late-bound: a copy of a live table's column list
         let resolved;
@@ -423,6 +436,34 @@ pub fn check_hist(case: &HistCase, st: &mut Stats) -> Check {
                     (Ok(()), false) => return Err(Fail::new(format!("{P} history dropped-missing"), format!("drop_table accepted a table that does not exist; history: {trace}"))),
                     (Err(_), false) => {}
                 }
+                hist_compare(&pkg, &model, "immediately", &trace)?;
+            }
+            HStep::Traffic { kind, sel, n } => {
+                use msi::{Delete, Expr, Insert, Update, Value};
+                if !traffic_table {
+                    let cols = vec![msi::Column::build("k").primary_key().int16(), msi::Column::build("s").nullable().string(0), msi::Column::build("t").nullable().string(0)];
+                    if pkg.create_table("_Traffic", cols).is_err() {
+                        continue;
+                    }
+                    traffic_table = true;
+                }
+                let n = 1 + (*n % 4) as i32;
+                let res = crate::engine::catch(|| match kind % 5 {
+                    0 => {
+                        let rows: Vec<Vec<Value>> = (0..n).map(|i| vec![Value::Int(next_key + i), text(*sel), text(sel.wrapping_add(1 + i as u8))]).collect();
+                        pkg.insert_rows(Insert::into("_Traffic").rows(rows))
+                    }
+                    1 => pkg.update_rows(Update::table("_Traffic").set("s", text(*sel)).set("t", text(sel.wrapping_add(3)))),
+                    2 => pkg.update_rows(Update::table("_Traffic").set("s", text(*sel)).with(Expr::col("k").eq(Expr::integer(1 + (*sel as i32 % next_key.max(1)))))),
+                    3 => pkg.delete_rows(Delete::from("_Traffic")),
+                    _ => pkg.delete_rows(Delete::from("_Traffic").with(Expr::col("k").eq(Expr::integer(1 + (*sel as i32 % next_key.max(1)))))),
+                })
+                .map_err(|(loc, msg)| Fail::new(format!("{P} panic at={loc}"), format!("row traffic panicked: {msg}; history: {trace}")))?;
+                trace.push_str(&format!("_Traffic: {} (text {:?}, n {n}) -> {}; ", ["insert", "update all", "update one", "delete all", "delete one"][(*kind % 5) as usize], text(*sel), if res.is_ok() { "ok" } else { "refused" }));
+                if res.is_ok() && kind % 5 == 0 {
+                    next_key += n;
+                }
+                st.class("history:row-traffic");
                 hist_compare(&pkg, &model, "immediately", &trace)?;
             }
             HStep::Reopen { close } => {
@@ -497,8 +538,9 @@ fn hist_strategy() -> impl Strategy<Value = HistCase> {
         4 => (0u8..4).prop_map(|t| HStep::Drop { t }),
         3 => (0u8..3).prop_map(|close| HStep::Reopen { close }),
         3 => (0u8..4, any::<u8>()).prop_map(|(t, like)| HStep::CreateLike { t, like }),
+        6 => (0u8..5, any::<u8>(), any::<u8>()).prop_map(|(kind, sel, n)| HStep::Traffic { kind, sel, n }),
     ];
-    prop::collection::vec(step, 2..9).prop_map(|steps| HistCase { steps })
+    prop::collection::vec(step, 2..12).prop_map(|steps| HistCase { steps })
 }
 
 fn case_strategy() -> impl Strategy<Value = Case> {
@@ -532,7 +574,7 @@ fn case_strategy() -> impl Strategy<Value = Case> {
 pub fn run(ctx: &Ctx) -> Report {
     let mut rep = Report::new(
         "exploration",
-        "column lists of 1..32 columns over every builder option: integer and string types, string widths over 0..65535 weighted on {0,1,255,256,511,512,0x7ff,0x800,65535}, all 26 categories, enumerations (plain, with ';', with an empty member, joined length around 255), ranges including the extreme integers, foreign-key annotations (valid and not), every flag combination, table names of 1..60 and column names of 1..64 characters; plus histories of 2..8 steps (create / drop / reopen over 4 table names and a pool of 10 column names that overlap with each other and with the strings creation writes into _Validation), compared after every step and after a final save + reopen. Oracle: if create_table returns Ok, the schema reported immediately and after save + reopen (all three close modes) equals the one created, and the independent decoder finds the same definition in _Columns (type-word bits) and _Validation (nullable, range, foreign key, category, set); definitions inside the representable core must be accepted. Non-trivial = an accepted definition with at least one non-default attribute; distinct by definition.",
+        "column lists of 1..32 columns over every builder option: integer and string types, string widths over 0..65535 weighted on {0,1,255,256,511,512,0x7ff,0x800,65535}, all 26 categories, enumerations (plain, with ';', with an empty member, joined length around 255), ranges including the extreme integers, foreign-key annotations (valid and not), every flag combination, table names of 1..60 and column names of 1..64 characters; plus histories of 2..11 steps (create / drop / reopen over 4 table names and a pool of 10 column names that overlap with each other and with the strings creation writes into _Validation, and row traffic — batch inserts, multi-row and single-row updates, deletes — on an auxiliary table whose cell texts are those same catalog strings, so that the pool entries behind the schema gain and lose references), compared after every step and after a final save + reopen. Oracle: if create_table returns Ok, the schema reported immediately and after save + reopen (all three close modes) equals the one created, and the independent decoder finds the same definition in _Columns (type-word bits) and _Validation (nullable, range, foreign key, category, set); definitions inside the representable core must be accepted. Non-trivial = an accepted definition with at least one non-default attribute; distinct by definition.",
     );
     rep.assumptions.push("refusal is never demanded outside the clearly unrepresentable set: the oracle is 'accepted => exact'".into());
     let mut st = Stats::new();
